@@ -173,7 +173,7 @@ func buildFaultTree(id int, seed int64) *faultTree {
 		m = reload(m)
 	case "dirty":
 		m = reload(m)
-		mut(m, t.model, 1+rng.Intn(2), 3)
+		mut(m, t.model, 1+rng.Intn(4), 3)
 	case "emptied":
 		m = reload(m)
 		for _, p := range pairsOf(t.model) {
@@ -330,12 +330,30 @@ func faultCalls(t *faultTree, rng *rand.Rand) []faultCall {
 	var cs []faultCall
 	if len(absent) > 0 {
 		cs = append(cs, faultCall{Op: "ins", K: pick(absent), V: 1}, faultCall{Op: "get", K: pick(absent)}, faultCall{Op: "seek", K: pick(absent)})
+		// and the absent key of the highest layer: inserting it splits subtrees several levels deep
+		ha := absent[0]
+		for _, a := range absent {
+			if t.kc.layers[a-1] > t.kc.layers[ha-1] {
+				ha = a
+			}
+		}
+		cs = append(cs, faultCall{Op: "ins", K: ha, V: 2})
 	}
 	if len(present) > 0 {
 		k := pick(present)
 		cs = append(cs, faultCall{Op: "ins", K: k, V: t.model[k]%2 + 1}, faultCall{Op: "ins", K: k, V: t.model[k]})
 		k = pick(present)
 		cs = append(cs, faultCall{Op: "del", K: k, V: t.model[k]})
+		// and the present key of the highest layer: its removal merges subtrees several levels deep
+		hk := present[0]
+		for _, p := range present {
+			if t.kc.layers[p-1] > t.kc.layers[hk-1] {
+				hk = p
+			}
+		}
+		if hk != k {
+			cs = append(cs, faultCall{Op: "del", K: hk, V: t.model[hk]})
+		}
 		cs = append(cs, faultCall{Op: "get", K: pick(present)}, faultCall{Op: "seek", K: pick(present)})
 	}
 	mv := func(n int, f bool) []string {
